@@ -12,7 +12,7 @@ Meta == {<<>>, <<7>>, <<0, 255, 10>>}
 MutRow(p, m) == [site |-> 0, node |-> 1, derived_state |-> <<65>>, parent |-> p, metadata |-> m, time |-> 2]
 IndRow(ps, m) == [flags |-> 1, location |-> <<>>, parents |-> ps, metadata |-> m]
 RowChoices(n) == IF Cls = "mutations" THEN {MutRow(p, m) : p \in (-1)..(n - 1), m \in {<<>>, <<7>>}}
-                 ELSE {IndRow(ps, m) : ps \in {<<>>} \cup {<<p>> : p \in (-1)..(n - 1)} \cup {<<p, -1>> : p \in 0..(n - 1)}, m \in {<<>>, <<7>>}}
+                 ELSE {IndRow(ps, m) : ps \in {<<>>} \cup {<<p>> : p \in (-1)..(n - 1)} \cup {<<p, -1>> : p \in 0..(n - 1)} \cup {<<-1, p>> : p \in 0..(n - 1)}, m \in {<<>>, <<7>>}}
 Masks(n) == [1..n -> {0, 1}]
 Closed(rs) == \A i \in 1..Len(rs) : RowRefsOK(Cls, [q \in 1..Len(rs) |-> 1], rs[i])
 Events ==
